@@ -894,3 +894,15 @@ func stringRanges(fn *ssa.Function) []ssa.Instruction {
 	}
 	return out
 }
+
+// eqConstFact: the fact states v == k, in any equivalent linear spelling
+// (v == k, k == v, v+1 == k+1, ...).
+func eqConstFact(f Fact, v ssa.Value, k int64) bool {
+	if f.Y == nil || f.Op != token.EQL || v == nil {
+		return false
+	}
+	z := &Polyizer{}
+	d := z.Of(f.X).add(z.Of(f.Y), -1)
+	want := z.Of(v).add(polyConst(k), -1)
+	return d.equal(want) || d.equal(want.mul(polyConst(-1)))
+}
